@@ -38,7 +38,7 @@ fn setups(env: &Env, sugg: bool) -> Result<Vec<Setup>, String> {
             let sess = Sess::new(spec, &root).map_err(|p| format!("context creation panicked at {}: {}", p.loc, p.msg))?;
             let oracle = LayoutOracle::load(lay)?;
             let mut pres = vec![];
-            for p in ["ক", "অ", "!"] {
+            for p in ["ক", "অ", "!", "\u{09CD}", "র"] {
                 let (pk, pm) = oracle.key_for_value(p).ok_or(format!("layout has no key for {p}"))?;
                 pres.push((pk, pm, p.to_string()));
             }
@@ -76,6 +76,7 @@ struct Tally {
     numpad_on_emit: u64,
     altgr_plane: u64,
     shift_ignored: u64,
+    unspecified: u64,
 }
 
 fn judge(s: &Setup, with_pre: usize, code: u16, m: u8, out: &mut Out, t: &mut Tally) {
@@ -93,7 +94,20 @@ fn judge(s: &Setup, with_pre: usize, code: u16, m: u8, out: &mut Out, t: &mut Ta
     });
     let prefix = if with_pre > 0 { s.pres[with_pre - 1].2.as_str() } else { "" };
     let val = s.oracle.value(code, m, s.numpad);
-    let expected = format!("{prefix}{}", val.unwrap_or(""));
+    // after a hasanta or a র the documented rules that no option switches off apply (hasanta + sign = vowel, doubled
+    // hasanta, hasanta + length mark, zo-fola after a bare র): the expectation is the rule model of C12 with every helper off
+    let expected = if with_pre > 3 {
+        match crate::prop::c12::model(prefix, val.unwrap_or(""), false, false, false, false) {
+            crate::prop::c12::Exp::Text(x, _) => x,
+            crate::prop::c12::Exp::Unspecified(_) => {
+                let _ = r;
+                t.unspecified += 1;
+                return;
+            }
+        }
+    } else {
+        format!("{prefix}{}", val.unwrap_or(""))
+    };
     let kname = keydef(code).map(|k| k.name.to_string()).unwrap_or_else(|| "out-of-table".to_string());
     let plane = if m & 2 != 0 { "AltGr" } else { "Normal" };
     let sigbase = format!("{}:{}:{}:numpad={}:pre={}:sugg={}", s.sess.spec.lay.name(), kname, plane, s.numpad, with_pre, s.sugg);
@@ -155,7 +169,7 @@ impl Prop for C04 {
     }
     fn rule(&self) -> String {
         "complete enumeration: every u16 key code x modifier in {0,1,2,3,4,5,0x80,0xFE,0xFF} x numpad off/on x {Probhat.json, verif.json} \
-         x {idle, after the consonant ক} (the 111 published codes also after the vowel অ and after '!'), suggestions off (pre-edit text compared with the layout JSON read independently), plus the 111 published \
+         x {idle, after the consonant ক} (the 111 published codes also after the vowel অ, after '!', after a hasanta and after র, where the expectation is the rule model of C12 with all helpers off), suggestions off (pre-edit text compared with the layout JSON read independently), plus the 111 published \
          codes x 9 modifiers with suggestions on (first candidate), plus the number-pad option switched off/on/off/on by update_engine under a live context for every number-pad key. distinct_nontrivial = distinct (layout, key, plane, assigned text) tuples that \
          emitted text and were compared."
             .into()
@@ -178,7 +192,7 @@ impl Prop for C04 {
              ("inert_assigned_empty_or_missing", 50), ("altgr_plane", 300), ("shift_bit_set", 300), ("suggestions_on_first_candidate", 500), ("numpad_option_switched_live", 100)]
     }
     fn run_shard(&self, env: &Env, out: &mut Out) {
-        let mut t = Tally { events: 0, emitted: 0, inert_assigned_empty: 0, inert_out_of_table: 0, numpad_off_inert: 0, numpad_on_emit: 0, altgr_plane: 0, shift_ignored: 0 };
+        let mut t = Tally { events: 0, emitted: 0, inert_assigned_empty: 0, inert_out_of_table: 0, numpad_off_inert: 0, numpad_on_emit: 0, altgr_plane: 0, shift_ignored: 0, unspecified: 0 };
         let sets = match setups(env, false) {
             Ok(s) => s,
             Err(e) => {
@@ -203,7 +217,7 @@ impl Prop for C04 {
         }
         drop(sets);
         // second pass: suggestions on, published codes only
-        let mut t2 = Tally { events: 0, emitted: 0, inert_assigned_empty: 0, inert_out_of_table: 0, numpad_off_inert: 0, numpad_on_emit: 0, altgr_plane: 0, shift_ignored: 0 };
+        let mut t2 = Tally { events: 0, emitted: 0, inert_assigned_empty: 0, inert_out_of_table: 0, numpad_off_inert: 0, numpad_on_emit: 0, altgr_plane: 0, shift_ignored: 0, unspecified: 0 };
         match setups(env, true) {
             Ok(sets) => {
                 for s in &sets {
@@ -249,6 +263,7 @@ impl Prop for C04 {
                 }
             }
         }
+        out.count("after_hasanta_or_ra_not_specified_by_the_rule_model", t.unspecified + t2.unspecified);
         out.count("numpad_option_switched_live", dynamic);
         out.count("evaluations", t.events + t2.events + dynamic);
         out.count("emitted", t.emitted);
@@ -267,7 +282,7 @@ impl Prop for C04 {
         let code = case.get("code").and_then(|c| c.as_u64()).unwrap_or(0) as u16;
         let m = case.get("modifier").and_then(|c| c.as_u64()).unwrap_or(0) as u8;
         let with_pre = case.get("prefix_index").and_then(|c| c.as_u64()).unwrap_or(0) as usize;
-        let mut t = Tally { events: 0, emitted: 0, inert_assigned_empty: 0, inert_out_of_table: 0, numpad_off_inert: 0, numpad_on_emit: 0, altgr_plane: 0, shift_ignored: 0 };
+        let mut t = Tally { events: 0, emitted: 0, inert_assigned_empty: 0, inert_out_of_table: 0, numpad_off_inert: 0, numpad_on_emit: 0, altgr_plane: 0, shift_ignored: 0, unspecified: 0 };
         for s in &sets {
             if s.sess.spec == spec {
                 judge(s, with_pre, code, m, out, &mut t);
